@@ -8,6 +8,7 @@ import (
 	"context"
 	"fmt"
 	"io"
+	"runtime"
 	"sync"
 	"sync/atomic"
 	"time"
@@ -687,6 +688,14 @@ func Build(c Config, m *Media) (*Store, error) {
 		inner = blobstore.CASReadBufferFactory
 	}
 	s.Factory = &FactoryWrap{Inner: inner, Raw: c.Factory == "raw", log: s.Log}
+	if m.Blocks.Hook == nil {
+		g := s.Gate
+		m.Blocks.Hook = func(kind string, off int64, n int) {
+			if kind == "sync-mid" {
+				g.Pass("sync-mid")
+			}
+		}
+	}
 
 	sector, blockSectors := c.Sector, c.BlockSectors
 	if c.InMemoryBlocks {
@@ -779,3 +788,111 @@ func (s *Store) Key(d digest.Digest) local.Key {
 func CanonicalKey(d digest.Digest) local.Key {
 	return local.NewKeyFromString(d.GetKey(digest.KeyWithoutInstance))
 }
+
+// ---------------------------------------------------------------------------
+// Harness-driven syncer steps (no free-running goroutines): every activity of
+// the PeriodicSyncer is started by the harness and runs until it finishes or
+// parks at a closed gate, so that schedules are chosen, not hoped for.
+
+func chanReady(ch <-chan struct{}) bool {
+	select {
+	case <-ch:
+		return true
+	default:
+		return false
+	}
+}
+
+// PutPending reports whether the block list signals unsynchronised data.
+func (s *Store) PutPending() bool {
+	s.Lock.RLock()
+	ch := s.PBL.GetBlockPutWakeup()
+	s.Lock.RUnlock()
+	return chanReady(ch)
+}
+
+// ReleasePending reports whether the block list signals blocks awaiting release.
+func (s *Store) ReleasePending() bool {
+	s.Lock.RLock()
+	ch := s.PBL.GetBlockReleaseWakeup()
+	s.Lock.RUnlock()
+	return chanReady(ch)
+}
+
+// Task is a syncer activity running in its own goroutine.
+type Task struct {
+	Done chan struct{}
+	s    *Store
+}
+
+// Finished reports whether the task has returned.
+func (t *Task) Finished() bool { return chanReady(t.Done) }
+
+// RunUntilParked advances the virtual clock (firing epoch and retry timers)
+// until the task has finished or some goroutine is parked at one of the named
+// gate points. It returns the gate point reached, or "" when finished.
+func (t *Task) RunUntilParked(points ...string) string {
+	for spin := 0; ; spin++ {
+		if t.Finished() {
+			return ""
+		}
+		for _, p := range points {
+			if t.s.Gate.Waiting(p) > 0 {
+				return p
+			}
+		}
+		if d, ok := t.s.M.Clock.NextFire(); ok {
+			t.s.M.Clock.Advance(d)
+			continue
+		}
+		if spin%64 == 63 {
+			time.Sleep(20 * time.Microsecond)
+		} else {
+			yield()
+		}
+	}
+}
+
+// Wait runs the task to completion (all gates must be open).
+func (t *Task) Wait() { t.RunUntilParked() }
+
+// StartPutRound starts one ProcessBlockPut round in a goroutine. The caller
+// should have checked PutPending (otherwise the round blocks until data is
+// written).
+func (s *Store) StartPutRound(ctx context.Context) *Task {
+	t := &Task{Done: make(chan struct{}), s: s}
+	go func() {
+		s.Syncer.ProcessBlockPut(ctx)
+		close(t.Done)
+	}()
+	return t
+}
+
+// StartReleaseRound starts one ProcessBlockRelease round in a goroutine.
+func (s *Store) StartReleaseRound() *Task {
+	t := &Task{Done: make(chan struct{}), s: s}
+	go func() {
+		s.Syncer.ProcessBlockRelease()
+		close(t.Done)
+	}()
+	return t
+}
+
+// PumpRelease processes pending block releases to completion (gates open).
+func (s *Store) PumpRelease() {
+	for i := 0; i < 8 && s.PBL != nil && s.ReleasePending(); i++ {
+		s.StartReleaseRound().Wait()
+	}
+}
+
+// SyncNow performs one full commit (data sync + state write) if there is
+// unsynchronised data; it returns whether one was performed.
+func (s *Store) SyncNow() bool {
+	if s.PBL == nil || !s.PutPending() {
+		return false
+	}
+	s.StartPutRound(context.Background()).Wait()
+	return true
+}
+
+func yield() { runtime.Gosched() }
